@@ -10,5 +10,5 @@ for p in "$@"; do
   out=$(VERIF_NO_EVIDENCE=1 ./check $p 2>&1); rc=$?
   echo "$out" | grep -E "^VIOLATION|tier=|^  " | sed "s/^/[$p rc=$rc] /" | cut -c1-400 | tee -a $D/detection.txt
 done
-git -C /repo checkout -- .
+git -C /repo apply -R $D/patch.diff || git -C /repo checkout -- $(git -C /repo apply --numstat $D/patch.diff | awk '{print $3}')
 git -C /repo status --short
